@@ -74,6 +74,26 @@ pub struct Found {
     pub index: u64,
     pub violation: Violation,
     pub tape: Vec<u64>,
+    /// Run indices the same worker thread executed before this one (oldest first). Only needed
+    /// when the code under test carries state from run to run (a static or thread-local).
+    pub worker_history: Vec<u64>,
+}
+
+/// Executes one run on a brand-new thread, so that thread-local state of the code under test
+/// (or anything a previous run left behind on this thread) cannot influence it.
+pub fn execute_isolated(scn: &dyn Scenario, tape: Tape, tier: Tier, tracing: bool, index: u64, prelude: &[(u64, u64)]) -> crate::core::RunResult {
+    std::thread::scope(|s| {
+        s.spawn(move || {
+            crate::core::install_panic_hook();
+            // prelude: earlier runs of the same worker, replayed from their seeds
+            for (seed, i) in prelude {
+                let _ = execute(scn, Tape::from_seed(run_seed(*seed, scn.name(), *i)), tier, false, *i);
+            }
+            execute(scn, tape, tier, tracing, index)
+        })
+        .join()
+        .expect("isolated run thread")
+    })
 }
 
 #[derive(Debug)]
@@ -104,6 +124,7 @@ pub fn run_batch(scn: &dyn Scenario, tier: Tier, seed: u64, n: u64, nworkers: us
             s.spawn(|| {
                 crate::core::install_panic_hook();
                 let mut local = BatchStats::default();
+                let mut history: Vec<u64> = Vec::new();
                 loop {
                     let i = next.fetch_add(1, Ordering::SeqCst);
                     if i >= n || i > stop_after.load(Ordering::SeqCst) {
@@ -143,6 +164,7 @@ pub fn run_batch(scn: &dyn Scenario, tier: Tier, seed: u64, n: u64, nworkers: us
                     if keep_hashes {
                         local.hashes.push((i, r.ctx.log.0));
                     }
+                    history.push(i);
                     if let Some(e) = r.harness_error {
                         herr.lock().unwrap().push(format!("run {i}: {e}"));
                         stop_after.fetch_min(i, Ordering::SeqCst);
@@ -152,7 +174,7 @@ pub fn run_batch(scn: &dyn Scenario, tier: Tier, seed: u64, n: u64, nworkers: us
                         let mut f = found.lock().unwrap();
                         let e = f.get(&v.class);
                         if e.is_none() || e.unwrap().index > i {
-                            f.insert(v.class.clone(), Found { index: i, violation: v, tape: r.ctx.tape.rec.clone() });
+                            f.insert(v.class.clone(), Found { index: i, violation: v, tape: r.ctx.tape.rec.clone(), worker_history: history.clone() });
                         }
                         if !is_known {
                             stop_after.fetch_min(i, Ordering::SeqCst);
@@ -215,7 +237,7 @@ fn truncate(s: &str, n: usize) -> String {
 
 /// Re-executes a tape; returns the violation class if it still fails.
 fn fails_with(scn: &dyn Scenario, tier: Tier, index: u64, tape: &[u64]) -> Option<(String, Vec<u64>)> {
-    let r = execute(scn, Tape::from_values(tape.to_vec()), tier, false, index);
+    let r = execute_isolated(scn, Tape::from_values(tape.to_vec()), tier, false, index, &[]);
     match r.verdict {
         Err(v) if r.harness_error.is_none() => Some((v.class, r.ctx.tape.rec)),
         _ => None,
@@ -267,6 +289,9 @@ pub fn shrink(scn: &dyn Scenario, tier: Tier, index: u64, class: &str, tape: Vec
         while block >= 1 {
             let mut i = 0;
             while i + block <= best.len() {
+                if execs >= budget_execs || start.elapsed().as_secs_f64() > budget_s {
+                    break;
+                }
                 let mut cand = best.clone();
                 cand.drain(i..i + block);
                 if let Some(rec) = try_tape(&cand, &mut execs) {
@@ -278,7 +303,7 @@ pub fn shrink(scn: &dyn Scenario, tier: Tier, index: u64, class: &str, tape: Vec
                 }
                 i += block;
             }
-            if block == 1 {
+            if block == 1 || execs >= budget_execs || start.elapsed().as_secs_f64() > budget_s {
                 break;
             }
             block /= 2;
@@ -286,6 +311,9 @@ pub fn shrink(scn: &dyn Scenario, tier: Tier, index: u64, class: &str, tape: Vec
         // 3. zero single entries, 4. lower single entries
         let mut i = 0;
         while i < best.len() {
+            if execs >= budget_execs || start.elapsed().as_secs_f64() > budget_s {
+                break;
+            }
             if best[i] != 0 {
                 let mut cand = best.clone();
                 cand[i] = 0;
@@ -321,8 +349,15 @@ pub fn shrink(scn: &dyn Scenario, tier: Tier, index: u64, class: &str, tape: Vec
     (best, execs)
 }
 
-pub fn write_replay(scn: &dyn Scenario, tier: Tier, seed: u64, index: u64, original_len: usize, shrink_execs: u64, tape: &[u64]) -> (PathBuf, Violation, u64) {
-    let r = execute(scn, Tape::from_values(tape.to_vec()), tier, true, index);
+/// Does this tape fail (with this class) when executed in isolation on a fresh thread?
+pub fn reproduces_isolated(scn: &dyn Scenario, tier: Tier, index: u64, class: &str, tape: &[u64], prelude: &[(u64, u64)]) -> bool {
+    let r = execute_isolated(scn, Tape::from_values(tape.to_vec()), tier, false, index, prelude);
+    matches!(r.verdict, Err(v) if v.class == class) && r.harness_error.is_none()
+}
+
+pub fn write_replay(scn: &dyn Scenario, tier: Tier, seed: u64, index: u64, original_len: usize, shrink_execs: u64, tape: &[u64], prelude: &[u64]) -> (PathBuf, Violation, u64) {
+    let pre: Vec<(u64, u64)> = prelude.iter().map(|i| (seed, *i)).collect();
+    let r = execute_isolated(scn, Tape::from_values(tape.to_vec()), tier, true, index, &pre);
     let v = r.verdict.clone().err().unwrap_or_else(|| Violation::new("none", "replay did not fail"));
     let dir = out_dir().join("replays");
     let _ = std::fs::create_dir_all(&dir);
@@ -339,6 +374,15 @@ pub fn write_replay(scn: &dyn Scenario, tier: Tier, seed: u64, index: u64, origi
         .with("original_tape_len", J::u(original_len as u64))
         .with("shrink_executions", J::u(shrink_execs))
         .with("tape", J::Arr(r.ctx.tape.rec.iter().map(|v| J::u(*v)).collect()))
+        .with("prelude_runs", J::Arr(prelude.iter().map(|v| J::u(*v)).collect()))
+        .with(
+            "prelude_note",
+            J::s(if prelude.is_empty() {
+                "none: the run fails in isolation"
+            } else {
+                "the tree under test carries state from run to run (a static or thread-local): the listed runs of the same scenario and seed are executed first, on the same fresh thread"
+            }),
+        )
         .with("faults_fired", J::Obj(r.ctx.faults.iter().map(|(k, v)| (k.to_string(), J::u(*v))).collect()))
         .with("trace", J::Arr(r.ctx.trace.iter().map(|s| J::s(truncate(s, 400))).collect()));
     let _ = std::fs::write(&path, j.to_string_pretty());
@@ -372,7 +416,9 @@ pub fn replay_file(path: &Path, scenarios: &[Box<dyn Scenario>]) -> i32 {
     let want_class = j.get("class").and_then(J::as_str).unwrap_or("").to_string();
     let want_hash = j.get("log_hash").and_then(J::as_str).unwrap_or("").to_string();
     let index = j.get("run").and_then(J::as_u64).unwrap_or(0);
-    let r = execute(scn.as_ref(), Tape::from_values(tape), tier, true, index);
+    let seed = j.get("seed").and_then(J::as_u64).unwrap_or(DEFAULT_SEED);
+    let prelude: Vec<(u64, u64)> = j.get("prelude_runs").and_then(J::as_arr).map(|a| a.iter().filter_map(J::as_u64).map(|i| (seed, i)).collect()).unwrap_or_default();
+    let r = execute_isolated(scn.as_ref(), Tape::from_values(tape), tier, true, index, &prelude);
     for line in &r.ctx.trace {
         println!("  {line}");
     }
